@@ -289,6 +289,7 @@ func init() {
 		c.rulesR3bounds()
 		c.rulesR4bounds2()
 		c.rulesR4fresh()
+		c.rulesR4nilctx()
 		c.rulesR4scanall()
 		c.rulesR4qdone()
 		c.rulesR4clone()
